@@ -811,8 +811,12 @@ class Formula:
         # There is also an argument for parameters that are not
         # Terms.
 
+        # Distinct terms can print alike (the FactorTerm 'a_b_c' of factor 'a'
+        # and that of factor 'a_b'; a Term named like a FactorTerm), so the
+        # fields of the term recarray are named by position, not by str(term).
         self._dtypes = {'param':np.dtype([(str(p), np.float64) for p in params]),
-                        'term':np.dtype([(str(t), np.float64) for t in terms]),
+                        'term':np.dtype([('t%d' % i, np.float64)
+                                         for i, _ in enumerate(terms)]),
                         'preterm':np.dtype([(n, np.float64) for n in preterm])}
 
         self.__terms = terms
@@ -879,9 +883,9 @@ class Formula:
         # into their respective binary columns.
         term_recarray = np.zeros(preterm_recarray.shape[0],
                                  dtype=self._dtypes['term'])
-        for t in self.__terms:
+        for field, t in zip(self._dtypes['term'].names, self.__terms):
             if not is_factor_term(t):
-                term_recarray[t.name] = preterm_recarray[t.name]
+                term_recarray[field] = preterm_recarray[t.name]
             else:
                 factor_col = preterm_recarray[t.factor_name]
                 # Python 3: If column type is bytes, convert to string, to allow
@@ -890,7 +894,7 @@ class Formula:
                     factor_col = factor_col.astype('U')
                 fl_ind =  np.array([x == t.level
                                     for x in factor_col]).reshape(-1)
-                term_recarray[f'{t.factor_name}_{t.level}'] = fl_ind
+                term_recarray[field] = fl_ind
         # The lambda created in self._setup_design needs to take a tuple of
         # columns as argument, not an ndarray, so each column
         # is extracted and put into float_tuple.
